@@ -318,6 +318,12 @@ class Summarizer:
         return [(s, None) for s in live] + done
 
     def stmt(self, n, st):
+        # `x = a if c else b` (also inside a return / append / call argument) is read as `if c: x = a  else: x = b`
+        if isinstance(n, (ast.Assign, ast.AugAssign, ast.AnnAssign, ast.Return, ast.Expr)):
+            from .core import desugar_ifexp
+            syn = desugar_ifexp(n)
+            if syn is not None:
+                return self.stmt(syn, st)
         if isinstance(n, ast.Expr):
             if isinstance(n.value, ast.Constant):
                 return [(st, None)]
@@ -418,6 +424,18 @@ class Summarizer:
         if isinstance(e, ast.Call):
             e = e.func
         if isinstance(e, ast.Name):
+            # raise helper(...) where the helper only builds the exception: the class it returns
+            model = getattr(self.h, "model", None)
+            if model is not None and not e.id[:1].isupper():
+                cands = [fn for (mod, nm), fn in getattr(model, "funcs", {}).items() if nm == e.id]
+                for fn in cands:
+                    rets = [r for r in ast.walk(fn) if isinstance(r, ast.Return)]
+                    cls = set()
+                    for r in rets:
+                        v = r.value.func if isinstance(r.value, ast.Call) else r.value
+                        cls.add(v.id if isinstance(v, ast.Name) and v.id[:1].isupper() else None)
+                    if rets and len(cls) == 1 and None not in cls:
+                        return cls.pop()
             return e.id
         if isinstance(e, ast.Attribute):
             return e.attr
@@ -680,6 +698,26 @@ class Summarizer:
         v = self.builtin(fname, args, kwargs, st)
         if v is not None:
             return v
+        # a call of an inlinable helper in expression position (a condition, an operand): the helper's paths become one
+        # conditional value; helpers that can raise stay opaque here (statement-level calls are forked by expr_forks)
+        if self.depth > 0 and hasattr(self.h, "inline"):
+            tgt = self.h.inline(fname)
+            if tgt is not None:
+                try:
+                    outs = self.inline_call(n, tgt, st)
+                except Unsupported:
+                    outs = None
+                if outs and not any(isinstance(val, _Raise) for _, val in outs):
+                    base = len(st.guards)
+                    seen = len(st.events)
+                    val = outs[-1][1]
+                    for s2, v2 in reversed(outs[:-1]):
+                        val = Sym(("ite", And(*s2.guards[base:]), v2, val))
+                    for s2, _ in outs:
+                        for e in s2.events[seen:]:
+                            if e[0] != "guard" and e not in st.events[seen:]:
+                                st.events.append(e)
+                    return val
         st.events.append(("call", fname, tuple(vkey(a) for a in args), tuple(sorted((k, vkey(x)) for k, x in kwargs.items())), n.lineno))
         allargs = tuple(vkey(a) for a in args) + tuple((k, vkey(x)) for k, x in sorted(kwargs.items()))
         if isinstance(n.func, ast.Attribute):
